@@ -56,7 +56,7 @@ partial def exec (w : World) (sticky : Bool) (limit : Nat) : PAct → Trace → 
   | .askB q k, t, own => if t.steps ≥ limit then (.limit, t) else exec w sticky limit (k (w.ask q t.steps)) (note t (reprStr q)) own
 
 def constWorld (v : Nat) (par1 : Bool) (before : Bool) : World :=
-  { word := fun _ => v, ask := fun q _ => match q with | .parEq1 => par1 | .parGt1 => !par1 | .beforeDeadline => before }
+  { word := fun _ => v, ask := fun q _ => match q with | .parEq1 => par1 | .parGt1 => !par1 | .beforeDeadline => before | .stdWillWake => false }
 
 def report (name : String) (ok : Bool) (detail : String) (t : Trace) : IO Unit :=
   IO.println s!"{if ok then "ok" else "WITNESS"} {name}: {detail}; steps={t.steps} casFail={t.casFail} casOk={t.casOk} first_ops={t.ops.toList.take 24}"
@@ -121,5 +121,9 @@ def main : IO Unit := do
   report "send-async" (o == .done none && seq t == ["Kanal.PEff.ptrWrite", "Kanal.PEff.cloneWaker", "st.rel:=0", "Kanal.PEff.wake"]) s!"send(): payload before wake: {seq t}" t
   let (o, t) := exec (constWorld 3 false true) true LIMIT (Gen.Signal_recv FUEL .sync kU) {} none
   report "recv-sync-starved" (o == .done none && seq t == ["Kanal.PEff.ptrRead", "cas.rel/acq(2->0)fail=3", "Kanal.PEff.readHandle", "st.rel:=0", "Kanal.PEff.unpark"]) s!"recv(): {seq t}" t
+  let (o, t) := exec (constWorld 2 false true) true LIMIT (Gen.Signal_will_wake FUEL .async kB) {} none
+  report "will_wake" (o == .done (some false) && seq t == ["Kanal.PAskB.stdWillWake"]) s!"will_wake() must be the standard library's Waker::will_wake: {seq t} -> {reprStr o}" t
+  let (o, t) := exec (constWorld 2 false true) true LIMIT (Gen.Signal_register_waker FUEL .async kU) {} none
+  report "register_waker" (o == .done none && seq t == ["Kanal.PEff.storeWaker"]) s!"register_waker(): {seq t}" t
   let (o, t) := exec (constWorld 2 false true) true LIMIT (Gen.Signal_terminate FUEL .sync kU) {} none
   report "terminate-sync" (o == .done none && seq t == ["cas.rel/acq(2->1)ok"]) s!"terminate(): {seq t}" t
